@@ -5,15 +5,14 @@
 
   OBLIGATIONS: C08_hmatmul C08_hmatmul_vectors C08_hmatmul_toHom C08_hmm C08_n_ary C08_n_ary_vectors
     C08_as_matrix_same_map C08_homogeneous_matrix_offset C08_vectors_ignore_translation
-    C08_euler_product C08_euler_product_closed_any_batch C08_euler_product_matrix C08_euler_any_batch_refuted
-    C08_euler_2d
-    C08_order_normalise_partial C08_order_normalise_refuted C08_order_normalise_fixed C08_order_rejects
+    C08_euler_product C08_euler_product_matrix C08_euler_homogeneous C08_euler_2d
+    C08_order_normalise C08_order_rejects
     C08_euler_orthogonal C08_euler_det_one C08_euler_invert_is_inverse
     C08_broadcast C08_broadcast_shapes C08_broadcast_nary C08_transform_broadcast
-    C08_as_matrix_batched_partial C08_as_matrix_batched_refuted C08_as_matrix_batched_fixed
+    C08_as_matrix_batched C08_hmm_batched
     C08_quat_matrix C08_quat_matrix_normalised C08_quat_sign
     C08_angleaxis_quat_matrix C08_matrix_quat_roundtrip
-    C08_euler_angles_pairs C08_euler_angles_roundtrip_refuted C08_euler_angles_2d_refuted
+    C08_euler_angles_roundtrip C08_euler_angles_roundtrip_pos C08_euler_angles_2d
     C08_scaling_shear C08_scaling_matrix C08_shear_matrix C08_translation
 -/
 import Deepali.Proofs.HomogLaws
@@ -103,117 +102,80 @@ theorem C08_vectors_ignore_translation (a : H d K) (A : Mat d K) (t t' x v : Vec
 
 /-! ## Euler angles -/
 
-/-- **all 27 order triples**: the matrix `euler_rotation_matrix` builds for angles of shape `(N, 3)`
-    is the product of the elementary rotations in the stated order (five hard-coded closed forms
-    and the generic fallback). -/
+/-- **all 27 order triples** (hence the 12 proper / Tait-Bryan ones), any batch element: the matrix
+    `euler_rotation_matrix` builds is the product of the elementary rotations in the stated order
+    (five hard-coded closed forms and the generic fallback). -/
 theorem C08_euler_product (a b c : Axis) (cs sn : Vec 3 K) :
-    eulerRotationMatrix3 (orderName a b c) 1 false cs sn
+    eulerRotationMatrix3 (orderName a b c) cs sn
       = .ok (((a.rot (cs 0) (sn 0)).mul (b.rot (cs 1) (sn 1))).mul (c.rot (cs 2) (sn 2))) :=
-  eulerRotationMatrix3_eq a b c 1 false cs sn (Or.inr ⟨rfl, rfl⟩)
-
-/-- the five closed forms do not depend on the batch shape or the `homogeneous` flag. -/
-theorem C08_euler_product_closed_any_batch (a b c : Axis) (h : isClosedForm a b c = true) (lead : Nat) (hg : Bool)
-    (cs sn : Vec 3 K) :
-    eulerRotationMatrix3 (orderName a b c) lead hg cs sn = .ok (eulerProduct a b c cs sn) :=
-  eulerRotationMatrix3_eq a b c lead hg cs sn (Or.inl h)
+  eulerRotationMatrix3_eq a b c cs sn
 
 /-- the same with Mathlib's matrix product. -/
 theorem C08_euler_product_matrix (a b c : Axis) (cs sn : Vec 3 K) (m : Mat 3 K)
-    (h : eulerRotationMatrix3 (orderName a b c) 1 false cs sn = .ok m) :
+    (h : eulerRotationMatrix3 (orderName a b c) cs sn = .ok m) :
     toM m = toM (a.rot (cs 0) (sn 0)) * toM (b.rot (cs 1) (sn 1)) * toM (c.rot (cs 2) (sn 2)) := by
   rw [C08_euler_product] at h
   simp only [Except.ok.injEq] at h
   rw [← h, mmul_eq, mmul_eq]
 
+/-- either value of the `homogeneous` flag gives the same map (a zero translation column). -/
+theorem C08_euler_homogeneous {d : Nat} (hg : Bool) (m : Mat d K) (x : Vec d K) :
+    (asRotationH hg m).apply x = m.mulVec x ∧ (asRotationH hg m).applyVec x = m.mulVec x := by
+  cases hg <;> simp [asRotationH, H.apply, H.applyVec, vadd_eq] <;> (funext i; simp)
+
 /-- 2-D: `[[c, −s], [s, c]]`, a proper rotation. -/
 theorem C08_euler_2d (c s : K) (h : c * c + s * s = 1) :
     (eulerRotationMatrix2 c s).mul (eulerRotationMatrix2 c s).transpose = Mat.one ∧
-    det2 (eulerRotationMatrix2 c s) = 1 ∧
+    affineDet2 (eulerRotationMatrix2 c s) = 1 ∧
     eulerRotationMatrix2 c s 0 0 = c ∧ eulerRotationMatrix2 c s 0 1 = -s ∧
     eulerRotationMatrix2 c s 1 0 = s ∧ eulerRotationMatrix2 c s 1 1 = c :=
   ⟨euler2_orth c s h, euler2_det c s h, rfl, rfl, rfl, rfl⟩
 
 /-- Euler matrices are orthogonal … -/
-theorem C08_euler_orthogonal (a b c : Axis) (lead : Nat) (hg : Bool) (cs sn : Vec 3 K) (m : Mat 3 K)
+theorem C08_euler_orthogonal (a b c : Axis) (cs sn : Vec 3 K) (m : Mat 3 K)
     (hu : ∀ i, cs i * cs i + sn i * sn i = 1)
-    (h : eulerRotationMatrix3 (orderName a b c) lead hg cs sn = .ok m) :
+    (h : eulerRotationMatrix3 (orderName a b c) cs sn = .ok m) :
     m.mul m.transpose = Mat.one ∧ m.transpose.mul m = Mat.one := by
-  have key := eulerRotationMatrix3_ok a b c lead hg cs sn m h
+  have key := eulerRotationMatrix3_ok a b c cs sn m h
   subst key
   exact ⟨eulerProduct_orth a b c cs sn hu, eulerProduct_orth' a b c cs sn hu⟩
 
 /-- … with determinant one. -/
-theorem C08_euler_det_one (a b c : Axis) (lead : Nat) (hg : Bool) (cs sn : Vec 3 K) (m : Mat 3 K)
+theorem C08_euler_det_one (a b c : Axis) (cs sn : Vec 3 K) (m : Mat 3 K)
     (hu : ∀ i, cs i * cs i + sn i * sn i = 1)
-    (h : eulerRotationMatrix3 (orderName a b c) lead hg cs sn = .ok m) : det3 m = 1 := by
-  have key := eulerRotationMatrix3_ok a b c lead hg cs sn m h
+    (h : eulerRotationMatrix3 (orderName a b c) cs sn = .ok m) : affineDet3 m = 1 := by
+  have key := eulerRotationMatrix3_ok a b c cs sn m h
   subst key
   exact eulerProduct_det a b c cs sn hu
 
 /-- `EulerRotation.tensor()` with `invert=True` (transpose) is the inverse map. -/
 theorem C08_euler_invert_is_inverse (a b c : Axis) (cs sn : Vec 3 K) (m : Mat 3 K) (x : Vec 3 K)
     (hu : ∀ i, cs i * cs i + sn i * sn i = 1)
-    (h : eulerRotationMatrix3 (orderName a b c) 1 false cs sn = .ok m) :
+    (h : eulerRotationMatrix3 (orderName a b c) cs sn = .ok m) :
     (invertRotation true m).mulVec (m.mulVec x) = x := by
-  have ho := (C08_euler_orthogonal a b c 1 false cs sn m hu h).2
+  have ho := (C08_euler_orthogonal a b c cs sn m hu h).2
   simp only [invertRotation, if_true]
   rw [← mul_mulVec, ho, one_mulVec]
 
 end algebra
 
-/-- the statement "for every batch shape of `angles` and either value of `homogeneous`" … -/
-def C08_euler_any_batch_Statement : Prop :=
-  ∀ (a b c : Axis) (lead : Nat) (hg : Bool) (cs sn : Vec 3 ℚ),
-    eulerRotationMatrix3 (orderName a b c) lead hg cs sn = .ok (eulerProduct a b c cs sn)
-
-/-- … is false for the code as it stands (F-08c): order `YZX` with un-batched angles raises in `bmm`. -/
-theorem C08_euler_any_batch_refuted : ¬ C08_euler_any_batch_Statement := by
-  intro h
-  have := h .Y .Z .X 0 false (fun _ => 1) (fun _ => 0)
-  simp [eulerRotationMatrix3, orderName, Axis.char] at this
-
 /-! ### order strings -/
 
-/-- both notations parse to the same triple — the full clause, for the code as it stands. -/
-def C08_order_normalise_Statement : Prop :=
-  ∀ a b c : Axis,
+/-- **both notations parse to the same triple**, all 27 triples: `"XYZ"`, `"xyz"`, `"Rx o Ry o Rz"` and
+    `"X o Y o Z"`; `None` means ZXZ; 2-D is always `Z`. -/
+theorem C08_order_normalise (a b c : Axis) :
     eulerRotationOrder (some (orderName a b c)) 3 = .ok (orderName a b c) ∧
     eulerRotationOrder (some (orderNameLower a b c)) 3 = .ok (orderName a b c) ∧
-    eulerRotationOrder (some (orderNotation a b c)) 3 = .ok (orderName a b c)
-
-/-- refuted (F-08d): `"Rz o Rx o Rz"` raises AttributeError (`re.subn(...)` is a tuple). -/
-theorem C08_order_normalise_refuted : ¬ C08_order_normalise_Statement := by
-  intro h
-  have := (h .Z .X .Z).2.2
-  rw [order_notation_raises] at this
-  cases this
-
-/-- what holds for the code as it stands: letter notation in either case is normalised to the
-    triple, `None` means `ZXZ`, 2-D is `Z`, and the composition notation raises for all 27 triples. -/
-theorem C08_order_normalise_partial (a b c : Axis) :
-    eulerRotationOrder (some (orderName a b c)) 3 = .ok (orderName a b c) ∧
-    eulerRotationOrder (some (orderNameLower a b c)) 3 = .ok (orderName a b c) ∧
+    eulerRotationOrder (some (orderNotation a b c)) 3 = .ok (orderName a b c) ∧
+    eulerRotationOrder (some (orderNotationUpper a b c)) 3 = .ok (orderName a b c) ∧
     eulerRotationOrder none 3 = .ok (orderName .Z .X .Z) ∧
-    (∀ arg, eulerRotationOrder arg 2 = .ok ['Z']) ∧
-    eulerRotationOrder (some (orderNotation a b c)) 3 = .error "err:type" ∧
-    eulerRotationOrder (some (orderNotationUpper a b c)) 3 = .error "err:type" :=
-  ⟨order_upper a b c, order_lower a b c, rfl, fun _ => rfl, order_notation_raises a b c,
-    order_notation_upper_raises a b c⟩
-
-/-- with the one-token repair `re.subn → re.sub` all spellings of all 27 triples agree. -/
-theorem C08_order_normalise_fixed (a b c : Axis) :
-    eulerRotationOrderFixed (some (orderName a b c)) 3 = .ok (orderName a b c) ∧
-    eulerRotationOrderFixed (some (orderNameLower a b c)) 3 = .ok (orderName a b c) ∧
-    eulerRotationOrderFixed (some (orderNotation a b c)) 3 = .ok (orderName a b c) ∧
-    eulerRotationOrderFixed (some (orderNotationUpper a b c)) 3 = .ok (orderName a b c) :=
-  ⟨orderFixed_upper a b c, orderFixed_lower a b c, orderFixed_notation a b c, orderFixed_notation_upper a b c⟩
+    (∀ arg, eulerRotationOrder arg 2 = .ok ['Z']) :=
+  ⟨order_upper a b c, order_lower a b c, order_notation a b c, order_notation_upper a b c, rfl, fun _ => rfl⟩
 
 /-- rejection: whatever is returned for `ndim = 3` is one of the 27 triples (possibly followed by the
     single newline Python's `$` tolerates); concrete malformed strings are rejected. -/
 theorem C08_order_rejects :
     (∀ arg o, eulerRotationOrder arg 3 = .ok o →
-        ∃ a b c : Axis, o = orderName a b c ∨ o = orderName a b c ++ ['\n']) ∧
-    (∀ arg o, eulerRotationOrderFixed arg 3 = .ok o →
         ∃ a b c : Axis, o = orderName a b c ∨ o = orderName a b c ++ ['\n']) ∧
     eulerRotationOrder (some "XY".toList) 3 = .error "err:value" ∧
     eulerRotationOrder (some "XYZW".toList) 3 = .error "err:value" ∧
@@ -221,12 +183,12 @@ theorem C08_order_rejects :
     eulerRotationOrder (some "RX o RY o RZ".toList) 3 = .error "err:value" ∧
     eulerRotationOrder (some "Rx oRy o Rz".toList) 3 = .error "err:value" ∧
     eulerRotationOrder (some "".toList) 3 = .error "err:value" ∧
-    eulerRotationOrderFixed (some "Rx o Ry".toList) 3 = .error "err:value" ∧
-    eulerRotationOrderFixed (some "Rx o Ry o Rz o Rx".toList) 3 = .error "err:value" ∧
+    eulerRotationOrder (some "Rx o Ry".toList) 3 = .error "err:value" ∧
+    eulerRotationOrder (some "Rx o Ry o Rz o Rx".toList) 3 = .error "err:value" ∧
+    eulerRotationOrder (some "X".toList) 3 = .error "err:value" ∧
     (∀ arg, eulerRotationOrder arg 4 = .error "err:notimpl") :=
-  ⟨fun _ _ h => order_sound h, fun _ _ h => orderFixed_sound h, by decide, by decide, by decide, by decide,
-    by decide, by decide, by decide, by decide, fun _ => rfl⟩
-
+  ⟨fun _ _ h => order_sound h, by decide, by decide, by decide, by decide,
+    by decide, by decide, by decide, by decide, by decide, fun _ => rfl⟩
 
 /-! ## Batches: leading-shape broadcasting -/
 
@@ -240,9 +202,9 @@ theorem C08_broadcast {a b c : HB d K} (h : a.matmul b = .ok c) :
     bcLeading a.lead b.lead = .ok c.lead ∧ (c.lead = a.lead ∨ c.lead = b.lead) ∧
     c.kind = a.kind.matmul b.kind ∧
     ∀ i x, (c.elem i).apply x
-        = (a.elem (bcPick (numel a.lead) i)).apply ((b.elem (bcPick (numel b.lead) i)).apply x) ∧
+        = (a.elem (bcPick (hbcNumel a.lead) i)).apply ((b.elem (bcPick (hbcNumel b.lead) i)).apply x) ∧
       (c.elem i).applyVec x
-        = (a.elem (bcPick (numel a.lead) i)).applyVec ((b.elem (bcPick (numel b.lead) i)).applyVec x) := by
+        = (a.elem (bcPick (hbcNumel a.lead) i)).applyVec ((b.elem (bcPick (hbcNumel b.lead) i)).applyVec x) := by
   refine ⟨HB_matmul_lead h, bcLeading_cases (HB_matmul_lead h), HB_matmul_kind h, fun i x => ?_⟩
   rw [HB_matmul_elem h i]
   exact ⟨matmul_apply _ _ x, matmul_applyVec _ _ x⟩
@@ -277,7 +239,7 @@ theorem C08_broadcast_nary (bs : List (HB d K)) :
     | ok ab =>
       simp only [hab] at h
       obtain ⟨e0, es, ⟨j, he0⟩, hlen, hx⟩ := ih ab c h i
-      refine ⟨a.elem (bcPick (numel a.lead) j), b.elem (bcPick (numel b.lead) j) :: es, ⟨_, rfl⟩, by simp [hlen], ?_⟩
+      refine ⟨a.elem (bcPick (hbcNumel a.lead) j), b.elem (bcPick (hbcNumel b.lead) j) :: es, ⟨_, rfl⟩, by simp [hlen], ?_⟩
       intro x
       rw [hx x, he0, HB_matmul_elem hab j, matmul_apply]
       rfl
@@ -292,38 +254,28 @@ theorem C08_transform_broadcast {n : Nat} {elem : Nat → H d K} {vectors : Bool
               else (elem (transformPick n pshape k).1).apply (pts (transformPick n pshape k).2)) :=
   (homogeneousTransformB_rows h k).1
 
-/-- `as_homogeneous_matrix` / `hmm` on batches, as the code stands: *when they return* the map of
-    every element is unchanged … -/
-theorem C08_as_matrix_batched_partial {a c : HB d K} (h : a.asMatrix = .ok c) (i : Nat) (x : Vec d K) :
-    (c.elem i).apply x = (a.elem i).apply x ∧ c.lead = a.lead ∧
-    (a.kind ≠ .translation ∨ a.lead = []) := by
-  obtain ⟨h1, h2⟩ := HB_asMatrix_apply h i x
-  refine ⟨h1, h2, ?_⟩
-  unfold HB.asMatrix at h
-  split at h
-  · simp at h
-  · next hc =>
-    by_cases hk : a.kind = .translation
-    · right; by_contra hl; exact hc ⟨hk, hl⟩
-    · left; exact hk
+/-- `as_homogeneous_matrix` on a batch of **any leading shape** and any operand form: same leading
+    shape, `(D, D+1)` form, and every element is the same map (points and vectors). -/
+theorem C08_as_matrix_batched (a : HB d K) (i : Nat) (x : Vec d K) :
+    (a.asMatrix.elem i).apply x = (a.elem i).apply x ∧ (a.asMatrix.elem i).applyVec x = (a.elem i).applyVec x ∧
+    a.asMatrix.lead = a.lead ∧ a.asMatrix.kind = .homogeneous :=
+  ⟨HB_asMatrix_apply a i x, HB_asMatrix_applyVec a i x, rfl, rfl⟩
 
-/-- with the repair of FINDINGS_C08.md the conversion is total and keeps the map. -/
-theorem C08_as_matrix_batched_fixed (a : HB d K) (i : Nat) (x : Vec d K) :
-    (a.asMatrixFixed.elem i).apply x = (a.elem i).apply x ∧ a.asMatrixFixed.lead = a.lead ∧
-    a.asMatrixFixed.kind = .homogeneous :=
-  ⟨HB_asMatrixFixed_apply a i x, rfl, rfl⟩
+/-- `hmm` on batches: succeeds exactly when `homogeneous_matmul` does, and is the composite as full matrices. -/
+theorem C08_hmm_batched {a b c : HB d K} (h : a.hmm b = .ok c) :
+    bcLeading a.lead b.lead = .ok c.lead ∧ c.kind = .homogeneous ∧
+    ∀ i x, (c.elem i).apply x
+        = (a.elem (bcPick (hbcNumel a.lead) i)).apply ((b.elem (bcPick (hbcNumel b.lead) i)).apply x) := by
+  unfold HB.hmm at h
+  cases hab : a.matmul b with
+  | error e => simp [hab, bind, Except.bind] at h
+  | ok ab =>
+    simp only [hab, bind, Except.bind, pure, Except.pure, Except.ok.injEq] at h
+    subst h
+    refine ⟨(HB_matmul_lead hab : bcLeading a.lead b.lead = .ok ab.lead), rfl, fun i x => ?_⟩
+    rw [HB_asMatrix_apply, HB_matmul_elem hab i, matmul_apply]
 
 end batches
-
-/-- … "converting any form (with any batch shape) to a full matrix returns a matrix" … -/
-def C08_as_matrix_batched_Statement : Prop :=
-  ∀ a : HB 2 ℚ, ∃ c, a.asMatrix = .ok c
-
-/-- … is false as the code stands (F-08a): a translation with a leading dimension raises. -/
-theorem C08_as_matrix_batched_refuted : ¬ C08_as_matrix_batched_Statement := by
-  intro h
-  obtain ⟨c, hc⟩ := h ⟨[1], .translation, fun _ => .trans (fun _ => 1)⟩
-  simp [HB.asMatrix] at hc
 
 /-! ## Quaternions and angle-axis vectors -/
 
@@ -334,7 +286,7 @@ variable {K : Type} [Field K]
 theorem C08_quat_matrix (q : Vec 4 K) (h : q 0 * q 0 + q 1 * q 1 + q 2 * q 2 + q 3 * q 3 = 1) :
     (quaternionToRotationMatrixN q).mul (quaternionToRotationMatrixN q).transpose = Mat.one ∧
     (quaternionToRotationMatrixN q).transpose.mul (quaternionToRotationMatrixN q) = Mat.one ∧
-    det3 (quaternionToRotationMatrixN q) = 1 :=
+    affineDet3 (quaternionToRotationMatrixN q) = 1 :=
   ⟨quatN_orth q h, quatN_orth' q h, quatN_det q h⟩
 
 /-- `q` and `−q` are the same rotation. -/
@@ -351,8 +303,8 @@ variable {K : Type} [Field K] [LinearOrder K] [IsStrictOrderedRing K]
 theorem C08_quat_matrix_normalised (q : Vec 4 K) (n eps : K)
     (hn : n * n = q 0 * q 0 + q 1 * q 1 + q 2 * q 2 + q 3 * q 3) (hpos : 0 < n) (heps : eps ≤ n) :
     (quaternionToRotationMatrix q n eps).mul (quaternionToRotationMatrix q n eps).transpose = Mat.one ∧
-    det3 (quaternionToRotationMatrix q n eps) = 1 := by
-  have hu := normalize_unit q n eps hn hpos heps
+    affineDet3 (quaternionToRotationMatrix q n eps) = 1 := by
+  have hu := quatNormalize_unit q n eps hn hpos heps
   exact ⟨quatN_orth _ hu, quatN_det _ hu⟩
 
 /-- angle-axis → quaternion → matrix equals angle-axis → matrix (Rodrigues), given
@@ -383,51 +335,45 @@ end quaternions_ordered
 section angles
 variable {K : Type} [Field K]
 
-/-- what `euler_rotation_angles` hands to `atan2` / `acos` for the matrix of angles `θ₀ θ₁ θ₂`
-    (orders XZX and ZXZ): index 0 receives `sin θ₁ · (sin θ₂, cos θ₂)`, index 1 `cos θ₁`, index 2
-    `sin θ₁ · (sin θ₀, cos θ₀)` — i.e. for `sin θ₁ > 0` the angles come back in **reverse** order. -/
-theorem C08_euler_angles_pairs (cs sn : Vec 3 K) :
+/-- round trip in verification form (orders XZX and ZXZ): for the matrix of angles `θ₀ θ₁ θ₂` the
+    `(y, x)` pair handed to `atan2` for output index `k ∈ {0, 2}` is `sin θ₁ · (sin θ_k, cos θ_k)` of the
+    **same** `k`, and index 1 receives `cos θ₁` for `acos`. -/
+theorem C08_euler_angles_roundtrip (cs sn : Vec 3 K) :
     eulerRotationAngles3 ['X', 'Z', 'X'] (eulerXZX cs sn)
-      = .ok ⟨(sn 1 * sn 2, sn 1 * cs 2), cs 1, (sn 0 * sn 1, cs 0 * sn 1)⟩ ∧
+      = .ok ⟨(sn 1 * sn 0, sn 1 * cs 0), cs 1, (sn 1 * sn 2, sn 1 * cs 2)⟩ ∧
     eulerRotationAngles3 ['Z', 'X', 'Z'] (eulerZXZ cs sn)
-      = .ok ⟨(sn 1 * sn 2, sn 1 * cs 2), cs 1, (sn 0 * sn 1, cs 0 * sn 1)⟩ := by
-  constructor <;> simp [eulerRotationAngles3, eulerXZX, eulerZXZ, mat3, vec3]
+      = .ok ⟨(sn 1 * sn 0, sn 1 * cs 0), cs 1, (sn 1 * sn 2, sn 1 * cs 2)⟩ := by
+  constructor <;> simp [eulerRotationAngles3, eulerXZX, eulerZXZ, affMat3, affVec3] <;>
+    (refine ⟨?_, ?_⟩ <;> ring)
+
+/-- 2-D: the pair handed to `atan2` is exactly `(sin θ, cos θ)`. -/
+theorem C08_euler_angles_2d (c s : K) : eulerRotationAngles2 (eulerRotationMatrix2 c s) = (s, c) := rfl
 
 end angles
 
-/-- round trip of the angles: index `k` of the result determines angle `k` … -/
-def C08_euler_angles_roundtrip_Statement : Prop :=
-  ∀ cs sn : Vec 3 ℚ, (∀ i, cs i * cs i + sn i * sn i = 1) → 0 < sn 1 →
-    ∃ r, eulerRotationAngles3 ['Z', 'X', 'Z'] (eulerZXZ cs sn) = .ok r ∧
-      r.a0 = (sn 1 * sn 0, sn 1 * cs 0) ∧ r.a2 = (sn 1 * sn 2, sn 1 * cs 2)
+section angles_ordered
+variable {K : Type} [Field K] [LinearOrder K] [IsStrictOrderedRing K]
 
-/-- … is false as the code stands (F-08b): angles (θ₀, π/2-ish, 0) come back as (0, ·, θ₀). -/
-theorem C08_euler_angles_roundtrip_refuted : ¬ C08_euler_angles_roundtrip_Statement := by
-  intro h
-  let cs : Vec 3 ℚ := fun i => if i = 0 then 3/5 else if i = 1 then 0 else 1
-  let sn : Vec 3 ℚ := fun i => if i = 0 then 4/5 else if i = 1 then 1 else 0
-  have hu : ∀ i, cs i * cs i + sn i * sn i = 1 := by
-    intro i; fin_cases i <;> simp [cs, sn] <;> norm_num
-  obtain ⟨r, hr, h0, _⟩ := h cs sn hu (by simp [sn])
-  rw [(C08_euler_angles_pairs cs sn).2] at hr
-  simp only [Except.ok.injEq] at hr
-  subst hr
-  simp [cs, sn] at h0
-  norm_num at h0
+/-- … hence for `sin θ₁ > 0` (i.e. `θ₁ ∈ (0, π)`, the range of `acos`) each pair is a *positive*
+    multiple of `(sin θ_k, cos θ_k)`, which `atan2` maps back to `θ_k`; this goes through the order
+    string of the API (`"XZX"`, `"ZXZ"` / `None`) and the matrix `euler_rotation_matrix` returns. -/
+theorem C08_euler_angles_roundtrip_pos (a : Axis) (hX : a = .X ∨ a = .Z) (cs sn : Vec 3 K) (m : Mat 3 K)
+    (hs : 0 < sn 1)
+    (hm : eulerRotationMatrix3 (orderName a (if a = .X then .Z else .X) a) cs sn = .ok m) :
+    ∃ (r : EulerAngleArgs K) (l : K), 0 < l ∧
+      eulerRotationAngles3 (orderName a (if a = .X then .Z else .X) a) m = .ok r ∧
+      r.a0 = (l * sn 0, l * cs 0) ∧ r.a1 = cs 1 ∧ r.a2 = (l * sn 2, l * cs 2) := by
+  rcases hX with rfl | rfl
+  · have : m = eulerXZX cs sn := by
+      simpa [eulerRotationMatrix3, orderName, Axis.char] using hm.symm
+    subst this
+    exact ⟨_, sn 1, hs, (C08_euler_angles_roundtrip cs sn).1, rfl, rfl, rfl⟩
+  · have : m = eulerZXZ cs sn := by
+      simpa [eulerRotationMatrix3, orderName, Axis.char] using hm.symm
+    subst this
+    exact ⟨_, sn 1, hs, (C08_euler_angles_roundtrip cs sn).2, rfl, rfl, rfl⟩
 
-/-- 2-D: "the angle can be recovered from what `euler_rotation_angles` looks at" … -/
-def C08_euler_angles_2d_Statement : Prop :=
-  ∀ c s c' s' : ℚ, c * c + s * s = 1 → c' * c' + s' * s' = 1 →
-    eulerRotationAngles2 (eulerRotationMatrix2 c s) = eulerRotationAngles2 (eulerRotationMatrix2 c' s') →
-    eulerRotationMatrix2 c s = eulerRotationMatrix2 c' s'
-
-/-- … is false (F-08b): only `cos θ` is used, so `θ` and `−θ` are indistinguishable. -/
-theorem C08_euler_angles_2d_refuted : ¬ C08_euler_angles_2d_Statement := by
-  intro h
-  have := h (3/5) (4/5) (3/5) (-4/5) (by norm_num) (by norm_num) rfl
-  have h10 := congrFun (congrFun this 1) 0
-  simp [eulerRotationMatrix2, mat2, vec2] at h10
-  norm_num at h10
+end angles_ordered
 
 /-! ## Scaling, shearing, translation and the parameter getters/setters -/
 
@@ -463,13 +409,13 @@ theorem C08_scaling_matrix (s x : Vec d K) (hs : ∀ i, s i ≠ 0) :
 
 /-- `shear_matrix` in 2-D and 3-D: unit upper triangular with `tan` of the angles in row-major order. -/
 theorem C08_shear_matrix (t : Nat → K) (x : Vec 2 K) (y : Vec 3 K) :
-    (shearMatrix (d := 2) t).mulVec x = vec2 (x 0 + t 0 * x 1) (x 1) ∧
-    (shearMatrix (d := 3) t).mulVec y = vec3 (y 0 + t 0 * y 1 + t 1 * y 2) (y 1 + t 2 * y 2) (y 2) := by
+    (shearMatrix (d := 2) t).mulVec x = affVec2 (x 0 + t 0 * x 1) (x 1) ∧
+    (shearMatrix (d := 3) t).mulVec y = affVec3 (y 0 + t 0 * y 1 + t 1 * y 2) (y 1 + t 2 * y 2) (y 2) := by
   constructor
   · funext i
-    fin_cases i <;> simp [Mat.mulVec, sumFin_eq, Fin.sum_univ_two, shearMatrix, triuIndex, vec2]
+    fin_cases i <;> simp [Mat.mulVec, sumFin_eq, Fin.sum_univ_two, shearMatrix, triuIndex, affVec2]
   · funext i
-    fin_cases i <;> simp [Mat.mulVec, sumFin_eq, Fin.sum_univ_three, shearMatrix, triuIndex, vec3] <;> ring
+    fin_cases i <;> simp [Mat.mulVec, sumFin_eq, Fin.sum_univ_three, shearMatrix, triuIndex, affVec3] <;> ring
 
 /-- `translation(offset)` in either representation adds the offset; vectors are unchanged. -/
 theorem C08_translation (t x : Vec d K) (hg : Bool) :
@@ -483,22 +429,22 @@ end elementary
 /-- `c = 3/5, s = 4/5` satisfies `c² + s² = 1`; a concrete generic-order matrix is computed and is a
     rotation different from the identity. -/
 example : ∃ (cs sn : Vec 3 ℚ) (m : Mat 3 ℚ), (∀ i, cs i * cs i + sn i * sn i = 1) ∧
-    eulerRotationMatrix3 (orderName .Y .Z .X) 1 false cs sn = .ok m ∧ det3 m = 1 := by
+    eulerRotationMatrix3 (orderName .Y .Z .X) cs sn = .ok m ∧ affineDet3 m = 1 := by
   have hu : ∀ i : Fin 3, (fun _ : Fin 3 => (3:ℚ)/5) i * (fun _ : Fin 3 => (3:ℚ)/5) i
       + (fun _ : Fin 3 => (4:ℚ)/5) i * (fun _ : Fin 3 => (4:ℚ)/5) i = 1 := fun _ => by norm_num
   exact ⟨fun _ => 3/5, fun _ => 4/5, _, hu, C08_euler_product .Y .Z .X _ _,
-    C08_euler_det_one .Y .Z .X 1 false _ _ _ hu (C08_euler_product .Y .Z .X _ _)⟩
+    C08_euler_det_one .Y .Z .X _ _ _ hu (C08_euler_product .Y .Z .X _ _)⟩
 
 /-- … and it is not the identity: entry (0,0) of `Ry Rz Rx` at these values is `c·c = 9/25`. -/
 example : (((Axis.Y.rot ((3:ℚ)/5) (4/5)).mul (Axis.Z.rot (3/5) (4/5))).mul (Axis.X.rot (3/5) (4/5))) 0 0 = 9/25 := by
-  simp [mul3_apply, Axis.rot, rotX, rotY, rotZ, mat3, vec3]; norm_num
+  simp [affineMul3_apply, Axis.rot, rotX, rotY, rotZ, affMat3, affVec3]; norm_num
 
 /-- a unit quaternion that is not the identity. -/
 example : ((1:ℚ)/2) * (1/2) + (1/2) * (1/2) + (1/2) * (1/2) + (1/2) * (1/2) = 1 ∧
     quaternionToRotationMatrixN (fun _ : Fin 4 => (1:ℚ)/2) 0 0 = 0 := by
   constructor
   · norm_num
-  · simp [quaternionToRotationMatrixN, mat3, vec3]; norm_num
+  · simp [quaternionToRotationMatrixN, affMat3, affVec3]; norm_num
 
 /-- hypotheses of `C08_angleaxis_quat_matrix` / `C08_matrix_quat_roundtrip` are satisfiable:
     axis `(0, 0, 5)`-ish with rational half-angle values `ch = 4/5, sh = 3/5`. -/
@@ -512,7 +458,10 @@ example : ∃ (q r : Vec 4 ℚ),
     r 0 * r 0 = quaternionToRotationMatrixN q 0 0 + quaternionToRotationMatrixN q 1 1 + quaternionToRotationMatrixN q 2 2 + 1 ∧
     0 < r 0 ∧ 0 < quaternionToRotationMatrixN q 0 0 + quaternionToRotationMatrixN q 1 1 + quaternionToRotationMatrixN q 2 2 := by
   refine ⟨fun i => if i = 0 then 4/5 else if i = 1 then 3/5 else 0, fun _ => 8/5, ?_, ?_, ?_, ?_⟩ <;>
-    simp [quaternionToRotationMatrixN, mat3, vec3] <;> norm_num
+    simp [quaternionToRotationMatrixN, affMat3, affVec3] <;> norm_num
+
+/-- a batched translation `(3, 2, 1)` converted to full matrices (the former F-08a witness). -/
+example : (HB.asMatrix (⟨[3], .translation, fun i => .trans (fun _ => (i : ℚ))⟩ : HB 2 ℚ)).lead = [3] := rfl
 
 /-- a batched composition that succeeds: `(N, D, 1)` translations composed with one `(D, D)` matrix. -/
 example : ∃ c : HB 2 ℚ, HB.matmul ⟨[3], .translation, fun i => .trans (fun _ => (i : ℚ))⟩
